@@ -20,12 +20,18 @@ META = {
 }
 
 
+MAX_PATHS = {'quick': 3000, 'thorough': 20000}
+
+
 def configs(tier):
     kmax = 4 if tier == 'quick' else 12
     cfgs = []
     for k in range(1, kmax + 1):
         n = 2 * k + 3 if tier == 'quick' else 3 * k + 3
         cfgs.append(dict(group='window', k=k, n=n, _cost=n * n))
+        if k <= 4:
+            cfgs.append(dict(group='window', k=k, n=n, reads='var_first', _cost=n * n))
+            cfgs.append(dict(group='window', k=k, n=n, reads='sparse', _cost=n * n))
     cfgs.append(dict(group='ctor'))
     return cfgs
 
@@ -63,6 +69,11 @@ def _window(env, cfg):
         mean_ref = total(last) / c
         var_ref = total([(x - mean_ref) * (x - mean_ref) for x in last]) / c
         tag = f"@n={i + 1}"
+        if cfg.get('reads') == 'var_first':
+            guarded(env, 'var', lambda: t.var)
+            guarded(env, 'std', lambda: t.std)
+        elif cfg.get('reads') == 'sparse' and i % 3 != 2:
+            continue
         m = guarded(env, 'mean', lambda: t.mean)
         env.claim('mean_of_last_min_n_k' + tag, (not is_nonfinite(m)) and eq(m, mean_ref), detail=f"k={k}, n={i + 1}")
         env.claim('get_is_mean' + tag, eq(t(), m))
